@@ -33,14 +33,15 @@ MAX_OPS_BEFORE_FLUSH = 15
 
 # ----------------------------------------------------------------------------- world
 class Env:
-    def __init__(self):
+    def __init__(self, reset: bool = True, name: str = "alice"):
         from netqasm.sdk.connection import DebugConnection
         from netqasm.sdk.epr_socket import EPRSocket
         from netqasm.sdk.qubit import Qubit
-        world.reset()
-        DebugConnection.node_ids = {"alice": 0, "bob": 1}
+        if reset:
+            world.reset()
+        DebugConnection.node_ids = {"alice": 0, "bob": 1, "charlie": 2}
         self.epr = EPRSocket("bob")
-        self.conn = DebugConnection("alice", epr_sockets=[self.epr])
+        self.conn = DebugConnection(name, epr_sockets=[self.epr])
         self.A0 = self.conn.new_array(2, init_values=[0, 1])
         self.F0 = self.A0.get_future_index(0)
         self.F1 = self.A0.get_future_index(1)
@@ -166,6 +167,16 @@ def op_foreach(e):
         v.add(1)
 
 
+def op_foreach_empty(e):
+    with e.A0.foreach():
+        pass
+
+
+def op_enumerate_empty(e):
+    with e.A0.enumerate():
+        pass
+
+
 def op_enumerate(e):
     with e.A0.enumerate() as (i, v):
         with v.if_eq(1):
@@ -285,7 +296,8 @@ OPS: List[Tuple[str, Callable, int]] = [   # (name, function, register measureme
     ("loop_ctx_reg", op_loop_ctx_reg, 0), ("loop_ctx_reg_hi", op_loop_ctx_reg_hi, 0), ("loop_body_reg", op_loop_body_reg, 0),
     ("loop_body_empty", op_loop_body_empty, 0),
     ("until_future", op_until_future, 0), ("until_reg", op_until_reg, 1),
-    ("foreach", op_foreach, 0), ("enumerate", op_enumerate, 0),
+    ("foreach", op_foreach, 0), ("enumerate", op_enumerate, 0), ("foreach_empty", op_foreach_empty, 0),
+    ("enumerate_empty", op_enumerate_empty, 0),
     ("add_lit", op_add_lit, 0), ("add_future_mod", op_add_future_mod, 0), ("add_reg", op_add_reg, 1), ("add_reg_future", op_add_reg_future, 1),
     ("meas_new", op_meas_new, 0), ("meas_reg", op_meas_reg, 1), ("meas_slot", op_meas_slot, 0), ("meas_inplace", op_meas_inplace, 0),
     ("new_array_equal", op_new_array_equal, 0), ("new_array_distinct", op_new_array_distinct, 0),
@@ -320,6 +332,43 @@ def build(history: List[int]) -> Env:
     for idx in history:
         apply(e, idx)
     return e
+
+
+def shard_coexist(shard):
+    """The register economy is per connection: with another connection alive in the process - in the middle of a loop, holding
+    a loop register, a measurement register and pending commands - every operation must leave this connection's economy
+    exactly as it does when the connection is alone."""
+    from netqasm.sdk.qubit import Qubit
+    part = new_part()
+    for idx, (name, fn, _) in enumerate(OPS):
+        case = {"coexist": True, "operation": name}
+        part["evals"] += 1
+        part["distinct"] += 1
+        try:
+            alone = Env()
+            apply(alone, idx)
+            want = alone.economy()
+            other = Env()
+            ctx_mgr = other.conn.loop(3)
+            ctx_mgr.__enter__()                      # stays open: holds a loop register
+            Qubit(other.conn).measure(store_array=False)
+            held = other.economy()
+            mine = Env(reset=False, name="charlie")
+            apply(mine, idx)
+            got = mine.economy()
+            after = other.economy()
+        except Exception as exc:
+            add_violation(part, f"coexisting-connections/raises/{name}", f"{type(exc).__name__}: {str(exc).splitlines()[0][:160] if str(exc) else ''}", case)
+            continue
+        if got != want:
+            add_violation(part, f"coexisting-connections/economy-differs/{name}", f"{name} on a second connection leaves {got}; alone it "
+                          f"leaves {want}", case)
+        elif after != held:
+            add_violation(part, f"coexisting-connections/disturbs-other/{name}", f"{name} on one connection changed the register economy "
+                          f"of another connection from {held} to {after}", case)
+        else:
+            count(part, "coexist-independent")
+    return part
 
 
 def key(e: Env) -> str:
@@ -495,6 +544,8 @@ def run(ctx):
                 if OPS[idx][2] * k <= 16:
                     shards.append(("long", idx, k))
     ctx.pmap(_dispatch, shards)
+    ctx.pmap(shard_coexist, [("coexist",)])
+    ctx.require("coexist-independent", len(OPS) - 2)
     for name, _, _ in OPS:
         ctx.require(f"op/{name}", 1)
     ctx.require("nesting-agree", 50)
@@ -503,6 +554,9 @@ def run(ctx):
 
 
 def replay(case, part):
+    if case.get("coexist"):
+        part["violations"].extend(v for v in shard_coexist(("coexist",))["violations"] if v["case"]["operation"] == case["operation"])
+        return
     if "nesting_depth" in case or "program" in case:
         from props import c05
         c05.replay(case, part)
